@@ -122,6 +122,7 @@ def check(model: Model, run: Run) -> None:
     lemma_no_consume_on_failure(model, run, "C02")
     lemma_no_silent_clamp(model, run, mr)
     lemma_reader_truth(model, run)
+    incomplete_is_only_waited_for(model, run, mr)
     residue_discipline(model, run, ex, fi)
     # ---- early returns (shared with C06 Q4)
     body = fi.node.body
@@ -204,3 +205,52 @@ def check(model: Model, run: Run) -> None:
                 run.ob("L5-fields-hold-values", ok)
                 if not ok:
                     run.fail(Finding("L5-fields-hold-values", cq, f"{f.name}: {a}", "a message field is typed as a view/reader/bytearray (shared mutable storage)", model.loc(c.module, c.node)))
+
+
+def incomplete_is_only_waited_for(model: Model, run: Run, mr) -> None:
+    """L10: "the outermost unit is not complete yet" (NotEnougData raised by a read on the stream-level reader) has exactly one
+    consequence - wait.  A handler that catches it and raises something else for some contents (a size limit looked up in the
+    partial header, a sanity check) makes the outcome depend on where the stream happened to be cut: the same message delivered
+    whole is returned."""
+    from ..readerrules import NOT_ENOUGH
+    from ..regions import decode_region
+    from .c06 import wait_handlers
+    region = list(decode_region(model))
+    # the message decoder itself: its reader parameter is the stream-level reader
+    entry = model.functions.get("sansldap._messages.unpack_ldap_message")
+    if entry is not None and not any(r_.fi is entry for r_ in region):
+        from ..regions import RegionFn
+        ps0 = entry.params()
+        rd = [p_ for p_ in ps0 if mr.r.env(entry).get(p_) == ("inst", "sansldap.asn1.ASN1Reader")]
+        region.append(RegionFn(entry, set(rd), set(), False))
+    n = 0
+    for rf in region:
+        f2 = rf.fi
+        mr.escapes(f2.qualname, None)
+        mr.fixpoint()
+        ctx = {"fi": f2, "self_cls": None, "key": (f2.qualname, None), "caught": frozenset(), "handler_var": None}
+        ps = f2.params()
+        off = 1 if f2.cls and not f2.is_staticmethod else 0
+        good = {f"local:{x}" for x in rf.readers} | {f"param:{ps.index(x) - off}" for x in rf.readers if x in ps}
+        handlers = []
+        for t in walk_no_nested(f2.node):
+            if isinstance(t, ast.Try):
+                for h in t.handlers:
+                    names = [] if h.type is None else (h.type.elts if isinstance(h.type, ast.Tuple) else [h.type])
+                    if any((model.resolve_name(f2.module, norm(n_)) or norm(n_)) == NOT_ENOUGH for n_ in names):
+                        handlers.append((t, h))
+        for t, h in handlers:
+            escs = mr.block(t.body, ctx)
+            stream_level = [e for e in escs if e.exc == NOT_ENOUGH and e.prov in good]
+            if not stream_level:
+                continue
+            n += 1
+            others = [r for r in ast.walk(ast.Module(body=h.body, type_ignores=[])) if isinstance(r, ast.Raise) and r.exc is not None and
+                      not (isinstance(r.exc, ast.Name) and r.exc.id == h.name) and
+                      model.resolve_name(f2.module, norm(r.exc.func if isinstance(r.exc, ast.Call) else r.exc)) != NOT_ENOUGH]
+            run.ob("L10-incomplete-unit-is-only-waited-for", not others, {"function": f2.qualname.split("sansldap.")[-1], "handler_line": h.lineno})
+            for r in others[:1]:
+                run.fail(Finding("L10-incomplete-unit-is-only-waited-for", f2.qualname, norm(r)[:80],
+                                 f"{f2.name} catches the stream-level 'not enough data yet' and raises `{norm(r.exc)[:50]}` instead for some inputs: whether a message is "
+                                 "returned or refused then depends on how the byte stream was chunked", model.loc(f2.module, r)))
+    run.floor("handlers of the stream-level incomplete signal", n, 1)
